@@ -663,7 +663,7 @@ func (e *Exec) concat(st *State, a, b *Term) *Term {
 	if lb, ok := e.litOf(b); ok && lb == "" {
 		return a
 	}
-	r := mkApp("concat", SStr, a, b)
+	r := mkApp("sconcat", SStr, a, b)
 	if la, ok := e.litOf(a); ok && len(la) <= 16 && st.quiet == 0 {
 		for i := 0; i < len(la); i++ {
 			st.assume(mkEq(strByte(r, mkInt64(int64(i))), mkInt64(int64(la[i]))))
@@ -958,6 +958,14 @@ func (e *Exec) box(st *State, v Value, to types.Type) Value {
 	case PtrVal:
 		if hl, ok := x.Loc.(*HeapLoc); ok && hl.Path == "" {
 			return Scalar{hl.Ref, to}
+		}
+		if ml, ok := x.Loc.(*MemLoc); ok && !ml.Whole && ml.Path == "" {
+			if _, isInt := interiorElem(x.Typ); isInt {
+				// pointer of an interior type: the interface holds its (array, index) code
+				r := ptrTerm(ml)
+				st.assume(mkImplies(mkNe(ml.Arr, tZero), mkEq(dynType(r), typeIdTerm(x.Typ))))
+				return Scalar{r, to}
+			}
 		}
 		// interior pointer boxed into an interface: keep it symbolic but remember the location
 		r := e.freshRef(st, "boxedptr")
